@@ -41,10 +41,11 @@ changed = sh("/venv/bin/python demo.py", timeout=1800)
 print("demo: clean rc=%d, changed rc=%d" % (clean.returncode, changed.returncode))
 tests = None
 if run_tests:
-    t = sh("/venv/bin/python -m pytest -q -p no:cacheprovider --import-mode=importlib --timeout=900 "
-           "--continue-on-collection-errors tests/unit 2>&1 | tail -3", timeout=7200)
+    t = sh("/venv/bin/python -m pytest -q -rfE -p no:cacheprovider --import-mode=importlib --timeout=900 "
+           "--continue-on-collection-errors tests/unit 2>&1 | tail -12", timeout=7200)
     tests = t.stdout.strip().splitlines()[-1] if t.stdout.strip() else "?"
-    print("tests:", tests)
+    not_passing = sorted(re.findall(r"^(?:FAILED|ERROR) (\S+)", t.stdout, re.M))
+    print("tests:", tests, not_passing)
 fired = {}
 for i in range(1, 21):
     pid = "C%02d" % i
@@ -57,7 +58,15 @@ for i in range(1, 21):
                       "first": (re.findall(r"^(?:FINDING|ANALYSIS-ERROR).*", c.stdout, re.M) or [""])[0][:300]}
 print("checks that fire:", json.dumps(fired, indent=1))
 ok_demo = clean.returncode == 0 and changed.returncode != 0
-ok_tests = (tests is None) or ("147 passed" in tests and "5 failed" in tests and "1 error" in tests)
+BASE_NOT_PASSING = sorted([
+    "tests/unit/qm/hilbertspace/oqsstatevector_test.py::TestOQSStateVector::test_evolution",
+    "tests/unit/qm/hilbertspace/test_hamiltonian.py::TestHamiltonian::test_units_management",
+    "tests/unit/qm/liouvillespace/rates/test_modifiedredfieldratematrix.py::TestModifiedRedfieldRateMatrix::test_create_ModifiedRedfieldRateMatrix",
+    "tests/unit/qm/liouvillespace/test_modredfield.py::TestModRedfield::test_comparison_of_rates",
+    "tests/unit/qm/liouvillespace/test_modredfield.py::TestModRedfield::test_propagation_in_different_basis",
+    "tests/unit/spectroscopy/twod_test.py",
+])
+ok_tests = (tests is None) or ("147 passed" in tests and not_passing == BASE_NOT_PASSING)
 d = os.path.join("/verif/seeded", sid)
 os.makedirs(d, exist_ok=True)
 shutil.copyfile("/tmp/_seed_%s.diff" % sid, os.path.join(d, "patch.diff"))
@@ -67,6 +76,7 @@ meta = {
     "confirmed": {"demo_on_unchanged_rc": clean.returncode, "demo_with_change_rc": changed.returncode,
                   "demo_with_change_output": (changed.stdout + changed.stderr)[-600:],
                   "unit_tests_with_change": tests,
+                  "unit_tests_not_passing_same_as_unchanged_tree": (not_passing == BASE_NOT_PASSING) if run_tests else None,
                   "how": "in scratch worktree %s: git checkout -- quantarhei; demo.py; git apply patch.diff; demo.py; "
                          "pytest tests/unit (baseline: 147 passed, 5 failed, 1 error)" % wt},
     "kept": bool(ok_demo and ok_tests),
